@@ -2,7 +2,9 @@
    converters/functions.py and api.py: ControlStatusCtx pushes itself / pops after the identity
    check; FunctionScope creates, enters and exits its ENABLED context under the single guard
    options.user_requested; every wrapper calls the wrapped function exactly once directly inside
-   the expected with-item; internal_convert dispatches on the status as documented; the stack
+   the expected with-item; internal_convert dispatches on the status as documented; the code generator creates the
+   function scope of an entity's top-level function with the requested options and that of every nested
+   function definition with options that are not user requested (scope_options_ok); the stack
    lives in threading.local storage reached only through _control_ctx(). *)
 From Coq Require Import List Bool.
 Import ListNotations.
